@@ -1,7 +1,7 @@
 (* C06/Properties.v — property theorems only (each closed by [exact lemma] and followed by
    [Print Assumptions]).  Model: C06/Model.v (the code after fix commits 3a7f18b, 811f017, 2c8a29b). *)
 From Coq Require Import String Permutation Morphisms.
-From RM Require Import C06.Model C06.Proofs C06.Proofs2 C06.Proofs3 C06.Proofs4.
+From RM Require Import C06.Model C06.Proofs C06.Proofs2 C06.Proofs3 C06.Proofs4 C06.Proofs5 C06.Driver.
 Open Scope Z_scope.
 
 (* No Panic and no OutOfFuel: for ALL rule texts (arbitrary byte strings), every walker (any
@@ -162,6 +162,43 @@ Theorem c06_refines_spec :
 Proof. exact walk_refines_spec. Qed.
 Print Assumptions c06_refines_spec.
 
+(* The same through the REAL CfiStackWalker (front-end B's model): for every architecture table,
+   start state (the forwarded callee-saved registers), INIT + delta records, lookup address,
+   in-range environment and documented tokens — and rule targets that name pairwise distinct machine
+   registers ([canon_distinct], the non-aliasing hypothesis of c06_order_irrelevant) — the walk
+   yields exactly [cfi_spec_real]: for EVERY canonical register c the caller's value and validity:
+   sp = CFA, ip = return address, a register with a rule gets its value and becomes valid, or becomes
+   invalid when the rule fails or the value does not fit the register width (memoised names, so
+   `x29: .undef` invalidates fp), every other register keeps what was forwarded from the callee. *)
+Theorem c06_real_walker_refines_spec :
+  forall a p E r addr s0,
+    env_wf E -> all_documented r addr -> real_documented_nonaliasing a r addr ->
+    match walk_frame_cfi (real_ops a) p E r addr s0, cfi_spec_real a E r addr s0 with
+    | Ret (Some s), Some (ctx, valid) => forall c, r_ctx s c = ctx c /\ r_valid s c = valid c
+    | Ret None, None => True
+    | _, _ => False
+    end.
+Proof. exact real_walk_refines_spec. Qed.
+Print Assumptions c06_real_walker_refines_spec.
+
+(* What walk_stack receives after the walk (get_caller_by_cfi builds the frame's context from the
+   walker; get_caller_frame drops the frame when ip < 4096 or sp does not grow): on x86 / amd64 the
+   walker's registers and validity set are handed over unchanged; on arm64 the validity set is
+   unchanged and pc, lr, fp are masked to 47 bits. *)
+Theorem c06_frame_handover :
+  (forall k a callee_sp s, k <> 2 ->
+     match post_real k a callee_sp s with
+     | Some s1 => s1 = s /\ 4096 <= r_ctx s (a_ip a) /\ callee_sp < r_ctx s (a_sp a)
+     | None => r_ctx s (a_ip a) < 4096 \/ r_ctx s (a_sp a) <= callee_sp
+     end) /\
+  (forall callee_sp s s1,
+     post_real 2 arm64 callee_sp s = Some s1 ->
+     (forall n, r_valid s1 n = r_valid s n) /\
+     (forall n, r_ctx s1 n = if beq n R_fp || beq n R_lr || beq n R_pc then Z.land (r_ctx s n) (2 ^ 47 - 1) else r_ctx s n) /\
+     4096 <= r_ctx s1 R_pc /\ callee_sp <= r_ctx s1 (a_sp arm64)).
+Proof. exact (conj handover_x86 handover_arm64). Qed.
+Print Assumptions c06_frame_handover.
+
 (* the text-level part on its own, for ALL byte strings: parse_cfi_exprs is the grouping spec *)
 Theorem c06_parse_refines_spec :
   forall texts out,
@@ -218,4 +255,27 @@ Proof.
   split; [|vm_compute; repeat split; reflexivity].
   intros ps H. vm_compute in H. inversion H; subst ps.
   repeat constructor; cbn [snd]; intro D; vm_compute in D; discriminate D.
+Qed.
+
+Example c06_nonvacuous_real :
+  let ctx := [(bs "eip", 1073741924); (bs "esp", 2147483648); (bs "ebp", 5); (bs "ebx", 6); (bs "esi", 7)] in
+  let E := mkEnv (real_callee x86 ctx None) (mem_read 4 2147483648 [1;0;0;0; 2;0;0;0; 3;0;0;0; 4;0;0;0]) 100 false 0 in
+  let r := mkCfi (0, bs ".cfa: $esp 16 + .ra: 1073742080 $ebx: 4294967296 $esi: .cfa 8 - ^ $eax: 9") 4096 [] in
+  all_documented r 100 /\ real_documented_nonaliasing x86 r 100 /\
+  match cfi_spec_real x86 E r 100 (real_init x86 ctx None) with
+  | Some (c, v) => c (bs "esp") = 2147483664 /\ c (bs "eip") = 1073742080 /\ v (bs "ebx") = false /\
+                   c (bs "esi") = 3 /\ v (bs "esi") = true /\ v (bs "eax") = true /\ v (bs "ebp") = true /\
+                   v (bs "ecx") = false
+  | None => False
+  end.
+Proof.
+  split; [|split; [|vm_compute; repeat split; reflexivity]].
+  - intros ps H. vm_compute in H. inversion H; subst ps.
+    repeat constructor; cbn [snd]; intro D; vm_compute in D; discriminate D.
+  - unfold real_documented_nonaliasing.
+    assert (T : targets (texts_of (mkCfi (0, bs ".cfa: $esp 16 + .ra: 1073742080 $ebx: 4294967296 $esi: .cfa 8 - ^ $eax: 9") 4096 []) 100)
+                = [bs "ebx"; bs "esi"; bs "eax"]) by (vm_compute; reflexivity).
+    rewrite T. intros n1 n2 H1 H2 Hne. cbn [In] in H1, H2.
+    destruct H1 as [H1|[H1|[H1|[]]]], H2 as [H2|[H2|[H2|[]]]]; subst n1 n2;
+      try (exfalso; apply Hne; reflexivity); right; right; vm_compute; intro H; discriminate H.
 Qed.
